@@ -194,8 +194,11 @@ class TreeFn(Generic[_FnT, _T]):
     # single value outputs. E.g., input_keys='a' gives (some_values, ) up to
     # this point, we need to unwrap it to some_values as the return, thus,
     # skipping the wrapping here because SELF is normalized to (SELF,).
+    # A plain str key spelled 'SELF' is an ordinary key (Reserved('SELF') == 'SELF').
     output_to_self = (
-        bool(self.output_keys) and self.output_keys[0] == tree.Key.SELF
+        bool(self.output_keys)
+        and isinstance(self.output_keys[0], tree.Reserved)
+        and self.output_keys[0] == tree.Key.SELF
     )
     if output_to_self and len(outputs) > 1:
       outputs = (outputs,)
@@ -348,7 +351,10 @@ class Sink(TreeFn[types.SinkT, _T]):
     super().__post_init__()
     if not isinstance(super()._actual_fn, types.SinkT):
       raise TypeError(f'The fn is not a sink, got {type(self._actual_fn)=}')
-    if self.output_keys and self.output_keys[0] != tree.Key.SELF:
+    if self.output_keys and not (
+        isinstance(self.output_keys[0], tree.Reserved)
+        and self.output_keys[0] == tree.Key.SELF
+    ):
       raise ValueError(
           f'Sink should not have output_keys, got {self.output_keys=}'
       )
